@@ -27,6 +27,18 @@ CHECKS = {
  "C14": ("property-based testing: is_match/find/model agreement and an earliest-mode validity predicate + bounded-exhaustive enumeration",
          "Exploration: is_match == find.is_some() == model; earliest result is a genuine occurrence ending no later than the normal match and None iff the normal search is None.",
          "Trusted: reference model, proptest.", "DESIGN.md §4 C14"),
+ "C04": ("exhaustive per-pattern-list exploration of the product of the automaton representations (bisimulation on the observables the search loops read) over generated pattern lists + API-level differential testing",
+         "Exploration, exhaustive per pattern list: for each generated pattern list/option set the product of the noncontiguous NFA with every other representation (alt dense depth, contiguous NFA, DFA x 3 start kinds) is explored over all 256 bytes to closure, comparing dead/match/match-list at each product state; this decides equality on haystacks of every length for that pattern list. API results of all 7 engines x start kinds are also compared on a generated haystack.",
+         "Trusted: the argument that the search loops read only the compared observables; sampled over pattern lists; 300k product-state cap (exceptions are counted).", "DESIGN.md §4 C04"),
+ "C16": ("exhaustive walk of every reachable automaton state x 256 bytes x supported anchoring arguments over generated pattern lists, with contract invariants; documented caller loop vs built-in search",
+         "Exploration, exhaustive per automaton: all states reachable from every obtainable start state are visited and the contract invariants of the Automaton trait are asserted on each; the search loop transcribed from the trait documentation is compared with try_find and the model.",
+         "Trusted: transcription of the documented loop; sampled over pattern lists.", "DESIGN.md §4 C16"),
+ "C05": ("differential testing prefilter(true) vs prefilter(false), both against the reference model, with constructive generators per prefilter variant",
+         "Exploration: every prefilter variant (memmem, start-bytes 1-3, rare-bytes 1-3, packed) is selected by constructed pattern lists (measured from Debug output), haystacks up to 4 KiB with candidate bytes around true matches; find/iter/overlapping/is_match must equal the model with the prefilter on and off; earliest is checked as a validity predicate.",
+         "Trusted: reference model; classification via Debug formatting (never a violation).", "DESIGN.md §4 C05"),
+ "C10": ("metamorphic testing (sub-slice equivalence, outside-byte rewriting, containment, empty-range) with adversarial boundary completion",
+         "Exploration: R1 span == shifted sub-slice, R2 outside bytes irrelevant (incl. content that would complete a match across the boundary), R3 containment, R4 start=end+1, for all engines/prefilter shapes and packed::Searcher::find_in.",
+         "Trusted: determinism of searches; reference model for the cross-check.", "DESIGN.md §4 C10"),
 }
 
 NOT_YET = {}
